@@ -1,6 +1,7 @@
 import FastraceModel.Lemmas.FlowCycle
 import FastraceModel.Lemmas.NoReporter
 import FastraceModel.Props.C01
+import FastraceModel.Lemmas.Sound
 
 /-!
 # End to end over whole programs (C01, C09, C08): nothing accepted is lost or duplicated
@@ -162,7 +163,160 @@ theorem run_dflt (p : Program) (s : Sys) (hp : Program.isDefault p) (h : Dflt s)
     simp only [run]
     exact ih _ (fun y hy => hp y (by simp [hy])) (exec_dflt s t op (hp (t, op) (by simp)) h)
 
+/-! ### nothing is invented, in either configuration -/
+
+/-- "is a copy (one per token item) of a span set the processing loops have been handed" -/
+def Consumed (s : Sys) (col : Collection) : Prop := col ∈ submitted (submitsOf s.g.consumed)
+
+structure Sound (s : Sys) : Prop where
+  buf : ColsIn (Consumed s) s.coll
+  rep : RecsFrom id (Consumed s) s.g.reported
+
+theorem Sound.init : Sound Sys.init :=
+  ⟨by intro col hc; simp [Sys.init, allCols] at hc, by intro k hk; simp [Sys.init] at hk⟩
+
+theorem Sound.of_fields {s s' : Sys} (h : Sound s) (h1 : allCols s'.coll.active = allCols s.coll.active)
+    (h2 : s'.g.consumed = s.g.consumed) (h3 : s'.g.reported = s.g.reported) : Sound s' := by
+  refine ⟨?_, ?_⟩
+  · intro col hc
+    rw [h1] at hc
+    show col ∈ submitted (submitsOf s'.g.consumed)
+    rw [h2]
+    exact h.buf col hc
+  · intro k hk
+    rw [h3] at hk
+    obtain ⟨col, hc, hk⟩ := h.rep k hk
+    exact ⟨col, by show col ∈ submitted (submitsOf s'.g.consumed); rw [h2]; exact hc, hk⟩
+
+theorem Sound.of_step {s s' : Sys} (h : Sound s) (st : Step s s') : Sound s' :=
+  h.of_fields (by rw [st.coll]) st.consumed st.reported
+
+theorem Sound.finishCycle {s : Sys} (h : Sound s) (kept : List (Nat × Ring Cmd)) (buf buf2 : List Cmd) :
+    Sound (s.finishCycle kept buf buf2).1 := by
+  have f0 : (s.finishCycle kept buf buf2).1.coll = (cycleProcess id s.coll (s.cycleBatch buf buf2)).1 := rfl
+  have f5 : (s.finishCycle kept buf buf2).1.g =
+      if s.coll.hasReporter then
+        { s.g with consumed := s.cycleBatch buf buf2 ++ s.g.consumed,
+                   reported := (cycleProcess id s.coll (s.cycleBatch buf buf2)).2.getD [] ++ s.g.reported }
+      else { s.g with discarded := s.cycleBatch buf buf2 ++ (s.cycleSplit buf buf2).2 ++ buf2.filter Cmd.isCommit ++ s.g.discarded } := rfl
+  generalize s.cycleBatch buf buf2 = batch at f0 f5
+  cases hr : s.coll.hasReporter with
+  | false =>
+    rw [hr] at f5
+    simp only [Bool.false_eq_true, if_false] at f5
+    have e := cycleProcess_noReporter id s.coll batch hr
+    exact h.of_fields (by rw [f0, e]) (by rw [f5]) (by rw [f5])
+  | true =>
+    rw [hr] at f5
+    simp only [if_true] at f5
+    -- everything that was a copy of a consumed span set still is, and so are the copies this batch submits
+    have mono : ∀ col, (Consumed s col ∨ col ∈ submitted (submitsOf batch)) →
+        col ∈ submitted (submitsOf (batch ++ s.g.consumed)) := by
+      intro col hc
+      rw [submitsOf_append, submitted_append, List.mem_append]
+      rcases hc with hc | hc
+      · exact .inr hc
+      · exact .inl hc
+    obtain ⟨a, b⟩ := cycle_sound (P := fun col => col ∈ submitted (submitsOf (batch ++ s.g.consumed))) id s.coll batch
+      (fun col hc => mono col (.inl (h.buf col hc))) (fun col hc => mono col (.inr hc))
+    refine ⟨?_, ?_⟩
+    · intro col hc
+      rw [f0] at hc
+      show col ∈ submitted (submitsOf (s.finishCycle kept buf buf2).1.g.consumed)
+      rw [f5]
+      exact a col hc
+    · intro k hk
+      rw [f5] at hk
+      simp only [List.map_append, List.mem_append] at hk
+      show ∃ col, col ∈ submitted (submitsOf (s.finishCycle kept buf buf2).1.g.consumed) ∧ _
+      rw [f5]
+      rcases hk with hk | hk
+      · cases hrep : (cycleProcess id s.coll batch).2 with
+        | none => rw [hrep] at hk; simp at hk
+        | some recs =>
+          rw [hrep] at hk
+          exact b recs hrep k (by simpa using hk)
+      · obtain ⟨col, hc, hk⟩ := h.rep k hk
+        exact ⟨col, mono col (.inl hc), hk⟩
+
+theorem Sound.finishCycleP {s : Sys} (h : Sound s) (kept : List (Nat × Ring Cmd)) (buf buf2 : List Cmd) :
+    Sound (s.finishCycleP kept buf buf2).1 := by
+  unfold Sys.finishCycleP
+  split
+  · have := h.finishCycle kept buf (buf2 ++ (takeParked (s.deferred ++ commitsOf buf) s.parkedCancels).1.map Cmd.drop)
+    exact this.of_fields rfl rfl rfl
+  · exact h.finishCycle kept buf buf2
+
+theorem Sound.withCyc {s : Sys} (h : Sound s) (c : Option CycState) : Sound { s with cyc := c } := h.of_fields rfl rfl rfl
+theorem Sound.withDrained {s : Sys} (h : Sound s) (l : List (Nat × Cmd)) : Sound (s.withG { s.g with drainedBy := l }) :=
+  h.of_fields rfl rfl rfl
+
+theorem Sound.cycStep {s : Sys} (h : Sound s) : Sound s.cycStep.1 := by
+  unfold Sys.cycStep
+  split
+  · exact h
+  · split
+    · exact h.finishCycleP _ _ _
+    · split
+      · first | exact h.withCyc _ | exact (h.withDrained _).withCyc _
+      · dsimp only
+        split <;> first | exact h.withCyc _ | exact (h.withDrained _).withCyc _
+    · first | exact h.withCyc _ | exact (h.withDrained _).withCyc _
+    · first | exact h.withCyc _ | exact (h.withDrained _).withCyc _
+    · dsimp only
+      split
+      · split <;> first | exact h.withCyc _ | exact (h.withDrained _).withCyc _
+      · split
+        · split <;> first | exact h.withCyc _ | exact (h.withDrained _).withCyc _
+        · first | exact h.withCyc _ | exact (h.withDrained _).withCyc _
+
+/-- every operation keeps the invariant — in either configuration, also across `set_reporter` calls -/
+theorem exec_sound (s : Sys) (t : Nat) (op : Op) (h : Sound s) : Sound (exec s t op).1 := by
+  cases hc : op.isCollectorOp with
+  | false => exact h.of_step (exec_step s t op hc)
+  | true =>
+    cases op with
+    | setReporter c => simp only [exec]; exact h.of_fields rfl rfl rfl
+    | cycle =>
+      simp only [exec]
+      split
+      · exact h
+      · exact (h.withDrained _).finishCycleP _ _ _
+    | flush =>
+      simp only [exec]
+      split
+      · exact h
+      · exact (h.withDrained _).finishCycleP _ _ _
+    | cycBegin =>
+      simp only [exec]
+      unfold Sys.cycBegin
+      split
+      · exact h
+      · split <;> exact h.withCyc _
+    | cycStep => simp only [exec]; exact h.cycStep
+    | _ => cases hc
+
+theorem run_sound (p : Program) (s : Sys) (h : Sound s) : Sound (run s p).1 := by
+  induction p generalizing s with
+  | nil => exact h
+  | cons x rest ih =>
+    obtain ⟨t, op⟩ := x
+    simp only [run]
+    exact ih _ (exec_sound s t op h)
+
 /-! ### the whole-program statements -/
+
+/-- **nothing is invented, whatever the program and the configuration** (default, cancelable, or
+    switching between them): every record ever reported is a record of a copy of a span set that the
+    processing loops were handed — which, by `E2E_conservation`, some channel accepted — and
+    everything the collector still buffers is such a copy too -/
+theorem E2E_nothing_invented (p : Program) :
+    let s := (run Sys.init p).1
+    (∀ k ∈ s.g.reported.map Record.core, ∃ col ∈ submitted (submitsOf s.g.consumed), k ∈ collectionCores id col) ∧
+    (∀ col ∈ allCols s.coll.active, col ∈ submitted (submitsOf s.g.consumed)) := by
+  have h := run_sound p Sys.init Sound.init
+  exact ⟨fun k hk => by obtain ⟨col, hc, hk⟩ := h.rep k hk; exact ⟨col, hc, hk⟩, h.buf⟩
+
 
 /-- **conservation**: for every program and every weight function that counts span sets per token item,
     accepted (+ the cancel commands the collector derived from `PARKED_CANCELS`, D21)
